@@ -11,7 +11,8 @@ CONSTANTS
   Gaps = {1}
   Cmds <- NoCmds
   Junk <- NoJunk
-  Filter0 = "all"
+  Filter0 <- NoFilter
+  Show = TRUE
 INIT Init
 NEXT Next
 VIEW View
@@ -25,8 +26,15 @@ INVARIANT InvResolved
 INVARIANT InvDestroyed
 INVARIANT InvLife
 INVARIANT InvNoGhosts
+INVARIANT InvSolo
 PROPERTY PropIsolation
 PROPERTY PropAppendOnly
 PROPERTY PropNoResurrect
 PROPERTY PropLatest
+PROPERTY PropCommands
+PROPERTY PropListReadOnly
+PROPERTY PropAnnounce
+PROPERTY PropOneItemPerLine
+PROPERTY PropShownIffSelected
+PROPERTY PropSeparator
 CHECK_DEADLOCK FALSE
